@@ -485,6 +485,7 @@ class SInt:
 class SReal:
     """Python/NumPy float modelled as a mathematical real (assumption A1)."""
     __slots__ = ("z",)
+    np_float64 = False
     __array_priority__ = 1000
 
     def __init__(self, z):
@@ -549,7 +550,8 @@ class SReal:
         oz = SReal.lift(o)
         if oz is None:
             return NotImplemented
-        cur().require("div.nonzero", SBool.mk(oz != 0), f"divisor {oz} is non-zero")
+        if not getattr(o, "np_float64", False):      # numpy float64 / float64 never raises (inf / nan): see qv/term.py
+            cur().require("div.nonzero", SBool.mk(oz != 0), f"divisor {oz} is non-zero")
         return SReal.mk(self.z / oz)
 
     def __rtruediv__(self, o):
